@@ -223,6 +223,8 @@ func runC20Case(id string, c *c20Case) {
 	starved := ""
 	var enq, taken atomic.Int64 // Enqueue calls that have returned; chunks the consumer holds
 	var stop atomic.Bool        // the consumer has given up (failure recorded): the producer stops waiting for it
+	var abort atomic.Bool       // the watchdog fired: everybody stops spinning
+	lossMsg := ""
 	go func() {
 		defer wg.Done()
 		for i := 0; i < c.N; i++ {
@@ -247,7 +249,21 @@ func runC20Case(id string, c *c20Case) {
 		var last []byte
 		k := 0
 		spins := 0
-		for len(obtained) < 2*c.N && spins < 50_000_000 {
+		checked := 0 // chunks of `obtained` already verified to be 0, 1, 2, ... in order
+		for len(obtained) < 2*c.N && spins < 50_000_000 && !abort.Load() {
+			// the stream obtained so far must be the produced stream: a gap or a repeat is reported at
+			// once (with the position), not after waiting for a chunk that will never come
+			if checked > len(obtained)/2 {
+				checked = len(obtained) / 2
+			}
+			for ; checked < len(obtained)/2 && lossMsg == ""; checked++ {
+				if got := int(obtained[2*checked])<<8 | int(obtained[2*checked+1]); got != checked&0xffff {
+					lossMsg = fmt.Sprintf("consumer read chunk %d where chunk %d was due (after %d chunks)", got, checked, checked)
+				}
+			}
+			if lossMsg != "" {
+				break
+			}
 			o := c.Ops[k%len(c.Ops)]
 			k++
 			// chunks certainly in the queue for the whole duration of the next take: Enqueues that had
@@ -296,6 +312,8 @@ func runC20Case(id string, c *c20Case) {
 	case <-done:
 	case <-timeAfter(20):
 		deadlocked = true
+		abort.Store(true)
+		stop.Store(true)
 	}
 	cs.Nontrivial = true
 	switch {
@@ -305,6 +323,9 @@ func runC20Case(id string, c *c20Case) {
 	case panicMsg != "":
 		cs.Oracle = "consumer panicked: " + panicMsg
 		cs.Sig = "C20:panic"
+	case lossMsg != "":
+		cs.Oracle = lossMsg
+		cs.Sig = "C20:lossless"
 	case depthBad != "":
 		cs.Oracle = "impossible depth " + depthBad
 		cs.Sig = "C20:depth"
